@@ -9,4 +9,5 @@ CONSTANTS
   Small = FALSE
   Avoid = FALSE
   SimK = 1
+  AccW = TRUE
   Acts = {"oset", "rebind", "nest", "ctor", "batch"}
